@@ -84,9 +84,16 @@ def run(ctx):
     text = ("MCShapes == BinShapesUpTo(" + ("4" if thorough else "3") + ")\n"
             + "MCTrunks == " + ("{<<0, 32>>, <<96, 64>>}" if thorough else "{<<0, 32>>, <<32, 32>>, <<96, 64>>}"))
     consts = {"Shapes": "<- MCShapes", "TrunkSizes": "<- MCTrunks", "Forks": "{0, 32}", "Spacing": "32", "Level": "16",
-              "ShiftBug": "FALSE"}
-    mc.explore(ctx, "Packing", "Packing machine: subtree packing keeps boxes apart (both orientations)",
-               constants=consts, invariants=["BoxesInv", "TrunksInv", "MirrorInv", "ExactInv"], mc_text=text)
+              "ShiftBug": "FALSE", "GrowBox": "TRUE"}
+    invs = ["BoxesInv", "TrunksInv", "TrunkInsideInv", "MirrorInv", "ExactInv"]
+    mc.explore(ctx, "Packing", "Packing machine: subtree packing keeps boxes and trunks apart (both orientations)",
+               constants=consts, invariants=invs, mc_text=text)
+    # wide and tall trunks on the shape where a grandchild's trunk reaches a neighbouring subtree
+    wide = "MCShapes == {<<0, 1, 1, 3, 4, 4, 6, 6, 3>>}\nMCTrunks == {<<0, 32>>, <<256, 32>>, <<256, 192>>}"
+    mc.explore(ctx, "Packing", "Packing machine: wide / tall trunks (repaired packing grows the box)",
+               constants=dict(consts, Forks="{0}"), invariants=invs, mc_text=wide)
+    mc.refuted(ctx, "Packing", "GrowBox=FALSE (pinned tree: a wide trunk sticks out of its box, defect D9)",
+               constants=dict(consts, Forks="{0}", GrowBox="FALSE"), invariants=["TrunksInv"], mc_text=wide)
     mc.refuted(ctx, "Packing", "ShiftBug=TRUE (right subtree not shifted by the extent of the left one)",
                constants=dict(consts, ShiftBug="TRUE"), invariants=["BoxesInv", "TrunksInv"],
                mc_text="MCShapes == BinShapesUpTo(3)\nMCTrunks == {<<0, 32>>, <<96, 64>>}")
@@ -115,6 +122,10 @@ def run(ctx):
                 sinp = sc.sinput(inp["ot"], inp["st"], inp["lm"], inp["c"], [sorted(s) for s in syn])
                 lab = c13.labels_for(rng, sinp, m, fam)
             jobs.append((sinp, m, fam, lab, seed))
+    # the witness of the repaired defect D9 (a grandchild trunk wider than its subtree), kept as a regression input
+    wit = proj.inp_record((0, 1, 2, 2, 4, 4, 6, 6, 1, 9, 9), (0, 1, 1, 3, 4, 4, 6, 6, 3, 9, 9),
+                          (0, 0, 2, 0, 2, 0, 2, 10, 0, 7, 2), costs[0])
+    jobs.append((wit, (3, 2, 2, 3, 2, 9, 2, 10, 3, 7, 2), "dtl", None, 738644))
     A = proj.api()
     from superrec2.compute.reconciliation import reconcile_thl
     for _ in range(150 if thorough else 20):
